@@ -115,7 +115,8 @@ func MatchTopic(filter string, topic string) (elements []string, matched bool) {
 		}
 	}
 
-	return elements, true
+	// every level of the filter matched: the topic matches only if it has no further levels
+	return elements, len(filterParts) == len(topicParts)
 }
 
 // Ledger is an auth ledger containing access rules for users and topics.
